@@ -467,3 +467,60 @@ func runSXPos(c *load.Ctx, r *report.RuleResult, name string) {
 		}
 	}
 }
+
+// --- comments are invisible -----------------------------------------------------------------------
+
+func init() {
+	register(&Rule{ID: "SX-comment-schema", Min: 3, Run: func(c *load.Ctx, r *report.RuleResult) { runSXComment(c, r, "schema") },
+		Doc: "user comments are invisible to the consumers of the schema scanner: in every reachable abstract state whose step function is one of the comment states, a byte either delivers no lexical event or leaves the comment (the event belongs to what follows the comment, such as the line break that ends a # comment) — a comment that delivered events from its inside would change how the loader counts lines and nodes, so that adding or re-wrapping a comment changed the meaning of the schema"})
+}
+
+func runSXComment(c *load.Ctx, r *report.RuleResult, name string) {
+	sp := scannerSpecs[name]
+	g := exploreScanner(c, name, sp)
+	if g.err != nil {
+		r.Unk("anchor|"+sp.rel, "", g.err.Error())
+		return
+	}
+	isComment := func(step string) bool { return strings.Contains(step, "Comment") }
+	edges := map[string]int{}
+	reported := map[string]bool{}
+	for _, e := range g.edges {
+		from := implStepName(g.m, e.from.st)
+		if !isComment(from) {
+			continue
+		}
+		edges[from]++
+		if e.res.Kind != "ok" || len(e.res.Events) == 0 || e.res.Next == nil {
+			continue
+		}
+		to := implStepName(g.m, e.res.Next)
+		if !isComment(to) {
+			continue
+		}
+		var types []string
+		for _, ev := range e.res.Events {
+			types = append(types, ev.Type)
+		}
+		key := fmt.Sprintf("comment-event|impl=%s|events=%s", from, strings.Join(types, ","))
+		if reported[key] {
+			continue
+		}
+		reported[key] = true
+		r.Bad(key, c.Pos(g.m.next.Pos()), fmt.Sprintf("inside a comment the byte %q delivers %s and the scanner stays inside the comment (%s); text reaching the state: %q", string([]byte{byte(e.input)}), evsString(e.res.Events), to, e.from.path))
+	}
+	for _, st := range sortedKeys(edges) {
+		bad := false
+		for k := range reported {
+			if strings.Contains(k, "impl="+st+"|") {
+				bad = true
+			}
+		}
+		if !bad {
+			r.OK("comment-silent|impl="+st, "", fmt.Sprintf("%d transitions: no event is delivered from inside the comment", edges[st]))
+		}
+	}
+	if len(edges) == 0 {
+		r.Unk("anchor|comment states", "", "no reachable state whose step function is a comment state")
+	}
+}
